@@ -17,7 +17,7 @@ RULE = ("a case is (x86-64 ELF/PE, IA32 PE, ARM64) x 0..16 arguments mixing inte
         "At the call: i-th argument in the i-th convention register with its exact value (mod 2^wordsize) or the symbol's "
         "address, remaining arguments on the stack in order above the shadow space, SP aligned to the convention's "
         "alignment when the start was aligned or align_stack is on; at the end SP is back where it started; callables "
-        "received the InsertionContext; ARM64 rejects shadow space / alignment != 16 with ValueError. Non-trivial = more "
+        "received the InsertionContext (the same CallPatch object is inserted at 1-3 sites and every callable must see each site's own context and deliver that site's value); ARM64 rejects shadow space / alignment != 16 with ValueError. Non-trivial = more "
         "arguments than convention registers, or an integer outside the signed 32-bit range, or a non-default "
         "convention; distinct by spec hash.")
 ASSUMPTIONS = [
